@@ -369,6 +369,26 @@ def strAdvance (sl : Slot) (it1 : StrIt) (rs : String) : Slot × String :=
     let c2 := if rs = "end" ∧ a = .more then { sl.cur with pos := sl.cur.den.count } else c1
     ({ sl with src := .str it1, cur := c2, readSince := false }, alts)
 
+/-- spec: the arguments of a NUL-delimited message are the pieces between the NULs (an unterminated last piece
+    is an argument too; a terminating NUL ends the last argument, it does not start another one) -/
+def msgArgs (d : List Char) : List (List Char) :=
+  let pieces := splitP (fun c => c = nul) d
+  if d.isEmpty then [] else if d.getLast? = some nul then pieces.dropLast else pieces
+
+/-- `mpt_message_iterator(msg, 0)`: the message parts are one byte sequence; every argument is stored with a
+    terminating NUL; an empty message gives an array without buffer -/
+def msgSlot (s : St) (h1 h2 : String) : St × String :=
+  let dec (h : String) : Option (List Char) := if h = "-" then some [] else decodeBytes h
+  match dec h1, dec h2 with
+  | some d1, some d2 =>
+    let d := d1 ++ d2
+    let arr : Option (List Char) := if d.isEmpty then none else some (if d.getLast? = some nul then d else d ++ [nul])
+    let b := BufIt.create arr false
+    let sl : Slot := { src := .buf b, cur := { den := IterSpec.explicit [], pos := 0 },
+                       seg := { segs := (msgArgs d).map fun a => (true, a), pos := 0 } }
+    addSlot s (some sl) true s!"ok slot={s.slots.size} ; *"
+  | _, _ => (s, "bad-op")
+
 def step (s : St) (w : List String) : St × String :=
   match w with
   | ["it", "begin"] => ({}, "R ok | C - | I -")
@@ -475,6 +495,8 @@ def step (s : St) (w : List String) : St × String :=
                            judged := den.isSome }
         addSlot s (some sl) true s!"ok slot={s.slots.size} ; *"
     | _, _ => (s, "bad-op")
+  | ["it", "msg", h1] => msgSlot s h1 "-"
+  | ["it", "msg", h1, h2] => msgSlot s h1 h2
   | ["it", kind, h] =>
     if kind = "buffer" ∨ kind = "args" then
       let dat : Option (Option (List Char)) := if h = "null" then some none else (decodeBytes h).map some
@@ -532,11 +554,11 @@ def step (s : St) (w : List String) : St × String :=
         else if h = "d" then
           let (src1, r) := sl.src.consumeD
           let out := match r with
-            | .ok v => s!"R ok val={fmtNum v true} | C - | I ret=type"
+            | .ok v => s!"R ok val={fmtNum v true} got=type | C - | I -"
             | .err e => s!"R err | C - | I ret={e.name}"
           if judgedGen || judgedStr then
             let alts := match sl.cur.value with
-              | some q => s!"ok val={fmtNum q true} ; *"
+              | some q => s!"ok val={fmtNum q true} got=type ; *"
               | none => "err ; *"
             (setSlot s k { sl with src := src1, cur := sl.cur.advance.1, readSince := false }, out ++ s!" | S {alts}")
           else
@@ -545,7 +567,7 @@ def step (s : St) (w : List String) : St × String :=
         else if h = "u" then
           let (src1, r) := sl.src.consumeU
           let out := match r with
-            | .ok v => s!"R ok val={v} | C - | I ret=type"
+            | .ok v => s!"R ok val={v} got=type | C - | I -"
             | .err e => s!"R err | C - | I ret={e.name}"
           match sl.src with
           | .str _ => (setSlot s k { sl with src := src1, sync := false }, out ++ " | S * ; *")
@@ -682,6 +704,30 @@ def step (s : St) (w : List String) : St × String :=
     else if v = "meta" then
       -- type query, format, iterator pointer; a source hands out no further reference
       withSel s fun _ _ => (s, "R ok | C - | I - | S ok ; *")
+    else if v = "uvalue" then
+      withSel s fun k sl =>
+        match sl.src with
+        | .str it =>
+          if !it.hasValue then (s, "R null | C - | I - | S null ; * || noconv ; *")
+          else
+            let (it1, r) := it.convWith cuint32
+            match r with
+            | .err e =>
+              -- a refused reading leaves the element as it was (an end found by an earlier reading is kept)
+              -- (every conversion error of an element arrives as BadType through `mpt_value_convert`)
+              let _ := e
+              (setSlot s k { sl with src := .str it1 }, "R noconv | C - | I ret=BadType | S * ; *")
+            | .ok u =>
+              -- the element ends where this reading ended: in step only if a number reading ends there too
+              let same := (it.conv).1.restore == it1.restore
+              (setSlot s k { sl with src := .str it1, sync := sl.sync && same, readSince := sl.readSince || same },
+                s!"R uval={u} | C - | I - | S * ; *")
+        | .gen g =>
+          -- no conversion from `double` to an integer type
+          let (g1, r) := g.value
+          (setSlot s k { sl with src := .gen g1 }, (if r.isNone then "R null | C - | I -" else "R noconv | C - | I ret=BadType") ++ " | S * ; *")
+        | .buf b =>
+          (s, (match b.value with | .null => "R null | C - | I -" | _ => "R noconv | C - | I ret=BadType") ++ " | S * ; *")
     else if v = "rest" then
       withSel s fun k sl =>
         match sl.src with
